@@ -167,9 +167,23 @@ C06Run(c, o, vOK, tag, r0) ==
 
 (* --- C08: WithSilent suppresses exactly the suppressible errors --------- *)
 
-C08Pair(c, v, s) ==
+C08Pair(c, v, s, r0) ==
   IF Crashed(v) \/ Crashed(s) THEN {} ELSE
   LET nd == Nondet(c)
+      cs == [c EXCEPT !.silent = TRUE]
+      (* the suppression used inside predicates must not leak: where every   *)
+      (* permitted evaluation ends in a suppressible error, the verbose run   *)
+      (* must report an error                                                 *)
+      noLeak ==
+        (v.query.err.cls = "none" /\ r0.err = "verbose") =>
+           \E par \in ParSpace(c) \cup DevParSpace(c) : Eval(c, par).err \notin {"verbose"}
+      (* a suppressed failure leaves exactly the items found before it        *)
+      silentItems ==
+        (v.query.err.cls = "verbose" /\ s.query.err.cls = "none") =>
+           \/ QueryMatchesR(cs, r0, s)
+           \/ \E par \in ParSpace(c) \cup DevParSpace(c) :
+                 LET r == Eval(c, par) IN r.err = "opaque" \/ QueryMatchesR(cs, r, s)
+           \/ nd
       noVerbose == \A e \in Entries : ~EntryOf(s, e).err.v /\ EntryOf(s, e).err.cls # "verbose"
       sameWhenOK ==
         (v.query.err.cls = "none") =>
@@ -189,8 +203,10 @@ C08Pair(c, v, s) ==
         /\ (v.match.err.cls \in {"hard", "ctx"}) => s.match.err.cls = v.match.err.cls
   IN (IF noVerbose THEN {} ELSE {"C08.verbose-under-silent"})
      \cup (IF sameWhenOK THEN {} ELSE {"C08.success-differs"})
-     \cup (IF suppressed THEN {} ELSE {"C08.not-suppressed"})
+     \cup (IF suppressed \/ nd THEN {} ELSE {"C08.not-suppressed"})    \* nd: another member order may meet another failure first
      \cup (IF hardKept \/ nd THEN {} ELSE {"C08.hard-suppressed"})
+     \cup (IF noLeak THEN {} ELSE {"C08.suppression-leak"})
+     \cup (IF silentItems THEN {} ELSE {"C08.silent-items"})
 
 (* --- the record ---------------------------------------------------------- *)
 
@@ -240,7 +256,7 @@ JudgeExec(rec) ==
   IN C01Rec(rec, r0)
      \cup C05Run(rec.v, ".v") \cup C05Run(rec.s, ".s")
      \cup C06Run(cv, rec.v, vOK, ".v", r0) \cup C06Run(cs, rec.s, vOK, ".s", r0)
-     \cup C08Pair(cv, rec.v, rec.s)
+     \cup C08Pair(cv, rec.v, rec.s, r0)
 
 (* verdict entries that are not violations *)
 IsRemark(cl) == \E p \in {"skip.", "bag.", "known."} : Len(cl) >= Len(p) /\ SubSeq(cl, 1, Len(p)) = p
